@@ -121,6 +121,9 @@ func refine(fs []Fact) []Fact {
 	return fs
 }
 
+// Expand is expand+refine for facts built by a caller.
+func Expand(fs []Fact) []Fact { return refine(expand(fs, 0)) }
+
 // expand adds what a fact on a short-circuit phi implies: `a && b` is a phi
 // with constant false on every edge but one, so "phi is true" means control
 // came along that one edge (all facts of that edge hold) and its value is true;
